@@ -8,8 +8,11 @@ d=$(mktemp -d /var/tmp/seed-XXXXXX)
 cp -r /repo/. "$d/"
 if ! git -C "$d" apply "$patch"; then echo "PATCH DOES NOT APPLY"; rm -rf "$d"; exit 3; fi
 h=$(python3 -c "import hashlib,sys;print(hashlib.sha256(sys.argv[1].encode()).hexdigest()[:8])" "$d")
-(cd /verif && VERIF_REPO="$d" timeout 1800 bin/check "$pid" --tier "$tier" 2>&1 | tail -8)
-rc=${PIPESTATUS[0]}
+log=$(mktemp /var/tmp/seedlog-XXXXXX)
+(cd /verif && VERIF_REPO="$d" timeout 1800 bin/check "$pid" --tier "$tier" >"$log" 2>&1); rc=$?
+tail -8 "$log"
+if [ -n "${SEED_KEEP:-}" ]; then mkdir -p "$SEED_KEEP"; cp "$log" "$SEED_KEEP/check.log"; cp -r "/verif/work/alt-$h/replays/$pid" "$SEED_KEEP/replays" 2>/dev/null; fi
+rm -f "$log"
 echo "seedtest: $pid exit=$rc"
 rm -rf "$d" "/verif/work/alt-$h"
 exit $rc
